@@ -60,6 +60,10 @@ ASSUMPTIONS = [
     "are well typed",
     "column values and literals are non-zero numbers (in-memory EQL drops falsy bound values: F-C01-3, not C07's subject)",
     "objects that can be compared by an equality join are value-distinct (unique names / ids), so dataclass == is identity",
+    "string columns (Body.name) are modelled by the rank of the string in a fixed sorted table (equality, order and "
+    "membership are preserved); all strings are lower-case letters, so SQLite's case-insensitive LIKE / wildcards are "
+    "not tripped; the substring forms contains(attr, 'x') / contains('xyz', attr) and a bare string attribute used as a "
+    "condition are not generated",
     "generated relationship hops are never None and ordering comparisons are never applied to a column holding None "
     "(in memory those raise AttributeError/TypeError instead of answering)",
 ]
@@ -69,12 +73,21 @@ RULE = ("corpus + seeded structured cases over the dataset's Position/Position4D
         "variables, two-variable comparisons and equality joins, constructs outside the translator's dispatch; "
         "a deterministic family of every accepted equality-join shape (selected class x other class x relationship "
         "pair, either operand order) over databases whose selected entities have 0/1/2/3 partner rows, each run with "
-        "an(...) and the(...) and observed WITH multiplicity; "
+        "an(...) and the(...) and observed WITH multiplicity; a deterministic family of string-column membership "
+        "(in_(attr,[..]) / contains([..],attr), lists and tuples of length 0-3 whose elements equal / are proper "
+        "substrings / proper superstrings of persisted values, directly and across 1 hop); "
         "3-12 persisted objects incl. None in optional columns; both worlds run for real; non-trivial = the expected "
         "answer is neither empty nor every candidate (or a definite rejection); distinct by case text")
 
 # ------------------------------------------------------------------------------------------------ vocabulary
-# (name, parent, [(column, kind)], [(relationship, target)])   kind: f float, i int, "f?" Optional[float]
+# (name, parent, [(column, kind)], [(relationship, target)])   kind: f float, i int, "f?" Optional[float], s str
+# String columns: the model (Lean) sees the RANK of the string in STRTAB, a fixed lexicographically sorted table of
+# lower-case strings, and only uses equality / order / membership on it, which the ranking preserves (Python str
+# comparison and SQLite's BINARY collation both order these ASCII strings bytewise).  The real objects, rows and
+# literals carry the strings themselves.  All strings are lower-case letters: SQLite's LIKE (used for the substring form
+# `contains(attr, "x")`, which is not modelled) is case-insensitive and treats % and _ as wildcards.
+STRTAB: List[str] = sorted(
+    [a for a in "abc"] + [a + b for a in "abc" for b in "abc"] + [a + b + c for a in "abc" for b in "abc" for c in "abc"])
 VOCAB: Dict[str, Dict[str, Any]] = {
     "geom": {
         "module": "test.dataset.example_classes",
@@ -93,7 +106,7 @@ VOCAB: Dict[str, Dict[str, Any]] = {
         "classes": [
             ("World", None, [("id", "i")], []),
             ("WorldEntity", None, [], [("world", "World")]),
-            ("Body", "WorldEntity", [("size", "i")], []),
+            ("Body", "WorldEntity", [("size", "i"), ("name", "s")], []),
             ("Handle", "Body", [], []),
             ("Container", "Body", [], []),
             ("Connection", "WorldEntity", [], [("parent", "Body"), ("child", "Body")]),
@@ -248,6 +261,15 @@ def _num(rng, hi=4) -> int:
     return rng.randint(1, hi)
 
 
+def _fresh_str(rng, db: "_DB", a: str) -> int:
+    """rank of a string no other object carries in column `a` (objects compared by an equality join stay value-distinct);
+    short strings with many sub/superstring relations among them are preferred"""
+    used = {o["vals"].get(a) for o in db.objs}
+    pool = [STRTAB.index(x) + 1 for x in ("a", "ab", "abc", "b", "bc", "c", "ca", "cab", "bca", "aa", "aab")]
+    free = [k for k in pool if k not in used] or [k for k in range(1, len(STRTAB) + 1) if k not in used]
+    return rng.choice(free[:6]) if rng is not None else free[0]
+
+
 def _gen_db(rng, sch: Sch, root: str, others: List[str]) -> _DB:
     """a small well-typed object graph containing 2-6 instances of `root` (and of every class in `others`)"""
     db = _DB(sch)
@@ -259,6 +281,8 @@ def _gen_db(rng, sch: Sch, root: str, others: List[str]) -> _DB:
         for a, k in sch.cols(cls):
             if k == "f?":
                 vals[a] = None if rng.random() < 0.35 else _num(rng, hi)
+            elif k == "s":
+                vals[a] = _fresh_str(rng, db, a)
             else:
                 vals[a] = _num(rng, hi)
         refs = {}
@@ -317,6 +341,20 @@ class _Gen:
         w = [(1 + 2 * (len(p) - 1)) * (4 if k.endswith("?") else 1) for p, k in cs]
         return self.rng.choices(cs, weights=w)[0]
 
+    def str_lit(self, cls: str, path) -> int:
+        """rank of a string literal for a string chain: a value present in the store, one of its sub/superstrings, or any"""
+        rng = self.rng
+        present = [v[1] for v in (self.db.value(i, path) for i in self.db.of(cls)) if v[0] == "num"]
+        r = rng.random()
+        if present and r < 0.5:
+            return rng.choice(present)
+        if present and r < 0.85:
+            base = STRTAB[rng.choice(present) - 1]
+            rel = [k + 1 for k, t in enumerate(STRTAB) if t != base and (t in base or base in t)]
+            if rel:
+                return rng.choice(rel)
+        return rng.randint(1, len(STRTAB))
+
     def atom(self, var_pool: List[int]) -> str:
         rng = self.rng
         var = rng.choice(var_pool)
@@ -326,27 +364,31 @@ class _Gen:
             c = self.pick_chain(0)
         path, kind = c
         cls = self.vars[var]
+        is_s = kind == "s"
         nullable = self.db.has_null(cls, path)
         self.tags.add("hops%d" % (len(path) - 1))
         if var != 0:
             self.tags.add("other-var-chain")
         if nullable:
             self.tags.add("null-column")
+        if is_s:
+            self.tags.add("string-column")
+        lit = (lambda: self.str_lit(cls, path)) if is_s else (lambda: _num(rng, 5))
         r = rng.random()
         if r < 0.55:
-            op = rng.choice(["eq", "ne"] if nullable else OPS)
-            v = None if (nullable and rng.random() < 0.3) else _num(rng, 5)
+            op = rng.choice(["eq", "ne"] if nullable else (["eq", "eq", "ne"] + OPS if is_s else OPS))
+            v = None if (nullable and rng.random() < 0.3) else lit()
             self.tags.add("cmp-" + op)
             if rng.random() < 0.15:
                 self.tags.add("literal-left")
                 return "(cmp %s %s %s)" % (op, _lit(v), _ch(var, path))
             return "(cmp %s %s %s)" % (op, _ch(var, path), _lit(v))
         if r < 0.70:
-            # column against column (same or other variable)
+            # column against column (same or other variable), of the same kind (number / string)
             var2 = rng.choice(var_pool)
-            c2 = self.pick_chain(var2)
-            if c2 is not None:
-                path2, _ = c2
+            cs2 = [(p, k) for p, k in self.chains(var2) if (k == "s") == is_s]
+            if cs2:
+                path2, _ = rng.choice(cs2)
                 n2 = self.db.has_null(self.vars[var2], path2)
                 op = rng.choice(["eq", "ne"] if (nullable or n2) else OPS)
                 self.tags.add("cmp-col-col")
@@ -354,15 +396,17 @@ class _Gen:
                 if var2 != 0:
                     self.tags.add("other-var-chain")
                 return "(cmp %s %s %s)" % (op, _ch(var, path), _ch(var2, path2))
-        if r < 0.92:
+        if r < 0.92 or is_s:
             k = rng.choice([0, 1, 1, 2, 2, 3])
-            vs = [_num(rng, 5) for _ in range(k)]
-            if (nullable and rng.random() < 0.5) or rng.random() < 0.05:
+            vs = [lit() for _ in range(k)]
+            if not is_s and ((nullable and rng.random() < 0.5) or rng.random() < 0.05):
                 vs.insert(rng.randint(0, len(vs)), None)
             self.tags.add("in-%d" % len(vs))
-            style = rng.choice(["in", "contains"])
+            style = rng.choice(["in", "contains", "in-tuple", "contains-tuple"])
+            if style.endswith("tuple"):
+                self.tags.add("tuple-literal")
             return "(in %s (vals%s) %s)" % (_ch(var, path), "".join(" " + ("N" if v is None else str(v)) for v in vs), style)
-        self.tags.add("bare-attr")
+        self.tags.add("bare-attr")  # never for a string column: SQLite casts text to 0 in a boolean context (not modelled)
         return "(attr %s)" % _ch(var, path)
 
     def eq_join_atom(self, allow_same_class: bool) -> Optional[str]:
@@ -571,7 +615,7 @@ def _join_db(sch: Sch, sel: str, oth: str, ra: str, rb: str, tcls: str, pattern:
     fillers: Dict[str, int] = {}
 
     def mk(cls: str, fixed: Dict[str, int]) -> int:
-        vals = {a: 1 + (len(db.objs) % 3) for a, _ in sch.cols(cls)}
+        vals = {a: (_fresh_str(None, db, a) if k == "s" else 1 + (len(db.objs) % 3)) for a, k in sch.cols(cls)}
         if cls == "World":
             vals["id"] = 1 + len(db.of("World"))
         refs = {}
@@ -610,7 +654,7 @@ def _join_family(tier: str) -> List[Case]:
             a, b = _ch(0, (ra,)), _ch(1, (rb,))
             cond = "(cmp eq %s %s)" % ((a, b) if k % 2 else (b, a))
             if k % 3 == 0:
-                sc = sch.scalar_chains(sel, 1)
+                sc = [x for x in sch.scalar_chains(sel, 1) if x[1] != "s"]
                 if sc:
                     path, _ = sc[k % len(sc)]
                     cond = "(and %s (cmp ge %s (lit 1)))" % (cond, _ch(0, path))
@@ -649,8 +693,45 @@ def _gen_joinmult(rng) -> Case:
     return Case(_case_line(the, "entity", [sel, oth], cond, sch, db, True), tuple(sorted(tags | g.tags)), "random")
 
 
+def _string_family(tier: str) -> List[Case]:
+    """membership of a string column in literal lists/tuples of length 0..3 whose elements are equal to / proper
+    substrings of / proper superstrings of the persisted values; `in_(attr, [..])` and `contains([..], attr)`"""
+    sch = Sch("world")
+    names = ["a", "ab", "abc", "b", "bc"]
+    code = lambda t: STRTAB.index(t) + 1
+    db = _DB(sch)
+    w = db.add("World", {"id": 1}, {})
+    bodies = [db.add(c, {"size": 1 + i, "name": code(t)}, {"world": w})
+              for i, (c, t) in enumerate(zip(["Body", "Handle", "Body", "Container", "Body"], names))]
+    db.add("FixedConnection", {}, {"world": w, "parent": bodies[2], "child": bodies[0]})
+    db.add("PrismaticConnection", {}, {"world": w, "parent": bodies[1], "child": bodies[3]})
+    db.add("Door", {}, {"world": w, "handle": bodies[1], "body": bodies[4]})
+    pool = ["a", "ab", "abc", "b", "bc", "c", "ca", "bca", "aab"]
+    lists = [[]] + [[t] for t in pool]
+    lists += [[x, y] for i, x in enumerate(pool) for j, y in enumerate(pool) if i != j and (i + 2 * j) % 5 == 0]
+    lists += [[x, y, z] for i, x in enumerate(pool) for j, y in enumerate(pool) for k, z in enumerate(pool)
+              if len({i, j, k}) == 3 and (i + 3 * j + 5 * k) % 37 == 0]
+    targets = [("Body", ("name",)), ("Handle", ("name",)), ("Connection", ("parent", "name")), ("Door", ("handle", "name")),
+               ("FixedConnection", ("child", "name"))]
+    styles = ["in", "contains", "in-tuple", "contains-tuple"]
+    cases = []
+    k = 0
+    for li, vs in enumerate(lists):
+        for ti, (root, path) in enumerate(targets):
+            if tier == "quick" and len(vs) != 1 and (li + ti) % 2:
+                continue
+            for style in styles if (len(vs) <= 1 or tier != "quick") else [styles[(li + ti) % 4], styles[(li + ti + 2) % 4]]:
+                k += 1
+                cond = "(in %s (vals%s) %s)" % (_ch(0, path), "".join(" %d" % code(t) for t in vs), style)
+                if k % 4 == 0:
+                    cond = "(or %s (cmp eq %s (lit %d)))" % (cond, _ch(0, path), code("b"))
+                tags = ("string-family", "world", "root-" + root, "string-column", "in-%d" % len(vs), "hops%d" % (len(path) - 1))
+                cases.append(Case(_case_line(False, "entity", [root], cond, sch, db, k % 2 == 0), tags, "exhaustive"))
+    return cases
+
+
 def generate(rng, tier, n):
-    cases = _join_family(tier)
+    cases = _join_family(tier) + _string_family(tier)
     for i in range(n):
         r = rng.random()
         stream = "single" if r < 0.56 else ("two" if r < 0.76 else ("joinmult" if r < 0.86 else "unsupported"))
@@ -886,12 +967,14 @@ def _build_objects(fam: str, db):
         kw = {}
         for f in o[2:]:
             if f[0] == "v":
-                v = None if f[2] == "N" else (float(int(f[2])) if ck.get(f[1], "i").startswith("f") else int(f[2]))
+                k = ck.get(f[1], "i")
+                v = None if f[2] == "N" else (
+                    float(int(f[2])) if k.startswith("f") else (STRTAB[int(f[2]) - 1] if k == "s" else int(f[2])))
                 kw[f[1]] = v
             else:
                 kw[f[1]] = None if f[2] == "N" else objs[int(f[2])]
-        if cname in VOCAB[fam]["named"]:
-            kw["name"] = "n%d" % i
+        if cname in VOCAB[fam]["named"] and "name" not in kw:
+            kw["name"] = "n%d" % i  # older case lines carry no name: unique by construction
         objs.append(cls(**kw))
     return objs
 
@@ -906,8 +989,23 @@ def _build_query(s, fam: str, objs):
              for i, c in enumerate(sx_field(items, "vars"))]
     ops = {"eq": op.eq, "ne": op.ne, "lt": op.lt, "le": op.le, "gt": op.gt, "ge": op.ge}
 
-    def lit(x):
-        return None if x == "N" else int(x)
+    sch = Sch(fam)
+    var_classes = sx_field(items, "vars")
+
+    def chain_kind(c) -> str:
+        """column kind of the chain's last attribute (unknown attributes: int)"""
+        try:
+            cls = var_classes[int(c[1])]
+            for a in c[2:-1]:
+                cls = dict(sch.rels(cls))[a]
+            return dict(sch.cols(cls)).get(c[-1], "i")
+        except Exception:  # noqa: BLE001
+            return "i"
+
+    def lit(x, kind="i"):
+        if x == "N":
+            return None
+        return STRTAB[int(x) - 1] if kind == "s" else int(x)
 
     def chain(c):
         node = vars_[int(c[1])]
@@ -915,12 +1013,12 @@ def _build_query(s, fam: str, objs):
             node = getattr(node, a)
         return node
 
-    def operand(o, left: bool):
+    def operand(o, left: bool, kind="i"):
         if o[0] == "ch":
             return chain(o)
         if o[0] == "lit":
             # a literal on the left must be a symbolic Literal, or Python would reflect the comparison
-            return W["Literal"](lit(o[1])) if left else lit(o[1])
+            return W["Literal"](lit(o[1], kind)) if left else lit(o[1], kind)
         if o[0] == "other":
             base = chain(o[2])
             if o[1] == "index":
@@ -938,11 +1036,17 @@ def _build_query(s, fam: str, objs):
         if h == "or":
             return E.or_(expr(e[1]), expr(e[2]))
         if h == "cmp":
-            return ops[e[1]](operand(e[2], True), operand(e[3], False))
+            kinds = [chain_kind(x) for x in (e[2], e[3]) if x[0] == "ch"]
+            kind = kinds[0] if kinds else "i"
+            return ops[e[1]](operand(e[2], True, kind), operand(e[3], False, kind))
         if h == "in":
-            vals = [lit(x) for x in e[2][1:]]
+            kind = chain_kind(e[1]) if e[1][0] == "ch" else "i"
+            vals = [lit(x, kind) for x in e[2][1:]]
+            style = e[3] if len(e) > 3 else "in"
+            if style.endswith("tuple"):
+                vals = tuple(vals)
             item = operand(e[1], False)
-            return E.contains(vals, item) if (len(e) > 3 and e[3] == "contains") else E.in_(item, vals)
+            return E.contains(vals, item) if style.startswith("contains") else E.in_(item, vals)
         if h == "attr":
             return chain(e[1])
         if h == "not":
